@@ -34,7 +34,7 @@ FILES = {
  "C08": "Models/Vss.v, EntryVss.v, Proofs/VssProofs.v; harness props/c08.go",
  "C09": "Models/Share.v, EntryShare.v, Proofs/PolyLemmas.v, Lagrange.v, ShareProofs.v, ZqField.v; harness props/c09.go",
  "C10": "Gen/BnConsts.v (T0), Models/Bn.v, BnPairing.v, EntryBn.v, Proofs/BnFieldProofs.v, BnRepr.v, BnTowerProofs.v; harness props/c10.go",
- "C11": "Models/Bn.v, EntryBn.v, Proofs/BnCodecProofs.v, BnCodecG2.v; harness props/c11.go",
+ "C11": "Models/Bn.v, EntryBn.v, Models/GtCodec.v, Proofs/BnCodecProofs.v, BnCodecG2.v, GtCodecProofs.v; harness props/c11.go",
  "C12": "Models/Guards.v, Proofs/GuardsProofs.v (+ QueryLoopProofs frame); harness props/c12.go (child processes)",
  "C13": "Models/QueryLoop.v, Proofs/QueryLoopProofs.v, QueryLoopRereg.v; harness props/c13.go (end-to-end family on props/c01.go's system runner)",
  "C14": "Models/Pipes.v, PipesCheck.v, PipeNetsOld.v, Gen/PipeNets.v (T3), Proofs/PipesProofs.v, PipesCheckProofs.v; translate/skel; harness props/c14.go (child processes)",
